@@ -233,6 +233,13 @@ func init() {
 		o.Check(strings.HasPrefix(as[3], "am/notify.ResolvedAlerts(") && strings.HasSuffix(as[3], "#0"), "log-resolved", "the logged resolved hashes must be this flush's (from the context), are "+as[3], lg)
 		o.Check(strings.HasPrefix(as[4], "am/notify.NflogStore(") && strings.HasSuffix(as[4], "#0"), "log-store", "receiver data must come from the context's store, is "+as[4], lg)
 		o.Check(strings.HasPrefix(as[5], "(2 * am/notify.RepeatInterval(") || strings.HasPrefix(as[5], "(am/notify.RepeatInterval(") && strings.HasSuffix(as[5], " * 2)"), "log-expiry", "the entry must be kept for 2×repeat_interval, expiry is "+as[5], lg)
+		// always then: the only exits that skip the record are the ones for a flush context without its values
+		{
+			missing := LRe(`am/notify\.(GroupKey|FiringAlerts|ResolvedAlerts|RepeatInterval)\(.*\)#1`, false)
+			for _, ret := range (&Walk{Fn: fn, Barrier: IsInstr(lg)}).FromEntry().Returns() {
+				o.Guarded(ret, "log-skipped", "leaving the record stage without recording a delivered notification (it would be sent again at the next flush)", missing)
+			}
+		}
 		// the stage returns Log's error
 		for _, rs := range e.ResultStores(fn, 2) {
 			if (&Walk{Fn: fn}).After(lg).Has(rs.Instr) || rs.Instr.Block() == lg.Block() {
@@ -545,4 +552,5 @@ func init() {
 	reg("C04", "C04.14", "T6,T8", "'already notified' is a subset test: "+desc, func(o *Ob) { subsetTestsRule(o); o.MinSites(3) })
 	reg("C05", "C05.13", "T6,T8", "'already reported resolved' is a subset test: "+desc, func(o *Ob) { subsetTestsRule(o); o.MinSites(3) })
 	reg("C08", "C08.13", "T6,T8", "'another instance already sent this' is a subset test: "+desc, func(o *Ob) { subsetTestsRule(o); o.MinSites(3) })
+	reg("C10", "C10.13", "T6,T8", "what is read from a stored entry is what it holds: "+desc, func(o *Ob) { subsetTestsRule(o); o.MinSites(3) })
 }
